@@ -152,7 +152,7 @@ pub fn property() -> Property {
             "histories",
             "assignment realised by two interleaved set/push histories, print/parse round trips",
             case_strategy,
-            |t| t.pick(30_000, 2_000_000),
+            |t| t.pick(20_000, 2_000_000),
             check,
         )],
         selfcheck: m::selfcheck,
